@@ -14,10 +14,11 @@ RULE = ("(a) exhaustive: every sequence over the 5 keyword types (Context, Actio
         "length 1..L (quick L=5, thorough L=7), every split into feature background | rule background | scenario steps (scenario "
         "part non-empty), compiled as a plain scenario and as a one-row outline on AST dictionaries; expected types by the "
         "running-last rule starting at Unknown, plain and outline must agree, every type one of the four strings; (b) through the "
-        "real parser in all 80 dialects with each dialect's first keyword of every category and '* ', sequences up to length 3.  "
+        "real parser in all 80 dialects with each dialect's first keyword of every category and '* ', sequences up to length 3; "
+        "(c) one Compiler reused for thousands of documents whose node ids coincide (random sequences/splits and generated ASTs).  "
         "Distinct = (sequence, split, plain/outline[, dialect]).")
 ASSUMPTIONS = ["the running-last rule of the property statement is the oracle (R4), independent of compiler.py"]
-DECIDING = ["compile_calls", "sequences_checked", "documents_parsed"]
+DECIDING = ["compile_calls", "sequences_checked", "documents_parsed", "compiles_on_reused_compiler"]
 T5 = pc.KTYPES
 
 
@@ -31,6 +32,7 @@ def plan(tier, seed):
     names = sorted(dialects.master())
     for s in range(0, 80, 10):
         specs.append({"family": "dialects", "dialects": names[s:s + 10], "L": 3 if q else 4, "seed": seed, "n": 10})
+    specs += shards("reused_compiler", 8000 if q else 400000, 2000 if q else 50000, seed)
     return specs
 
 
@@ -108,6 +110,27 @@ def run_shard(spec, M):
                     for i in range(0, j + 1):
                         check_seq(seq, i, j, M)
         M.sample({"prefix": pre, "L": L})
+    elif spec["family"] == "reused_compiler":
+        # one Compiler for the whole shard; every document numbers its nodes from 0 (as a fresh Parser per
+        # document does), so node ids of different documents coincide: nothing remembered by id may leak
+        from gherkin.pickles.compiler import Compiler
+        comp = Compiler()
+        for i in range(spec["start"], spec["start"] + spec["n"]):
+            r = rng(spec["seed"], ID, "reused", i)
+            case = {"kind": "shard", "spec": spec, "index": i}
+            if i % 2:
+                doc = pc.AstGen(r).doc()
+            else:
+                n = r.randint(1, 6)
+                seq = [r.choice(T5) for _ in range(n)]
+                j = r.randrange(0, n)
+                i0 = r.randint(0, j)
+                fbg, rbg, own = seq[:i0], seq[i0:j], seq[j:]
+                doc = build(fbg, rbg if (rbg or r.random() < 0.3) else None, own, r.random() < 0.6)
+                M.count("sequences_checked")
+            k = pc.assign_ids(doc)
+            M.case(h64(doc))
+            pc.compare(doc, "u", k, ID, M, case, compiler=comp)
     else:
         for d in spec["dialects"]:
             run_dialect(d, spec["L"], M)
@@ -186,7 +209,9 @@ def run_dialect(d, L, M):
 
 
 def replay(case, M):
-    if case["kind"] == "seq":
+    if case["kind"] == "shard":
+        run_shard(case["spec"], M)
+    elif case["kind"] == "seq":
         check_seq(case["seq"], case["i"], case["j"], M)
     else:
         o = observe.parse_observed(case["text"])
